@@ -22,7 +22,7 @@ CHECKS = {
          "ArgMax over every axis x keepdims x every value tuple over {1,2,3,NaN} along the axis (all tie and NaN positions), ReduceMax/Min over every axes subset in three spellings (+absent, duplicate, out of range) x keepdims, Softmax/LogSoftmax over every axis x every magnitude tuple over {0,+-1,...,+-max}^n (n<=3); first-occurrence indices, exact shapes, int64 type, non-NaN finite normalised outputs vs a stable float64 reference. Plus depth-2 operator-instance histories.",
          E1NOTE, "DESIGN.md §3 (row C09)"),
  "C10": ("exploration", "E1", "exhaustive sweep of float bit patterns (thorough: all 2^32 float32 values per operator) + bounded-exhaustive shapes/slopes on the real operators vs Go math reference",
-         "Every float operator is evaluated through the Operator API on a structured alphabet covering every binade, both signs, subnormals, +-0, +-Inf, NaN and function-domain boundaries (quick), and on ALL 2^32 float32 bit patterns (thorough), compared within 4 ulp (96 ulp for Sigmoid/Tanh evaluated in float32) with the Go math library; shape/dtype preservation over rank 0..4; PRelu over all (x, slope) shape pairs and special values; Abs over all gate dtypes incl. integer minimum; Not over bool.",
+         "Every float operator is evaluated through the Operator API on a structured alphabet covering every binade, both signs, subnormals, +-0, +-Inf, NaN and function-domain boundaries (quick), and on ALL 2^32 float32 bit patterns (thorough), compared within 4 ulp (256 ulp for Sigmoid/Tanh evaluated in float32) with the Go math library; shape/dtype preservation over rank 0..4; PRelu over all (x, slope) shape pairs and special values; Abs over all gate dtypes incl. integer minimum; Not over bool.",
          E1NOTE + " For the trigonometric/hyperbolic operators the reference and gonnx both rest on Go's math package (trusted base): the check targets wiring, dtype handling, special values and shape handling, not the accuracy of math.Sin itself.", "DESIGN.md §3 (row C10)"),
  "C11": ("exploration", "E1", "bounded-exhaustive enumeration of attribute forms / value types x encodings x shapes / 10x10 cast pairs x in-range value alphabets on the real operators vs math/big reference",
          "Constant over every attribute form (8 names + unknown + wrong count), `value` in all 11 element types x both encodings x shapes of rank 0..2; ConstantOfShape over value absent / each type / wrong element counts x every shape operand of rank 1..4; Cast over all 100 numeric pairs x all in-range values of an alphabet that is complete for 8/16-bit sources and hits every power-of-two boundary and rounding tie for wider ones; results must be bit-exact with the right element type, unsupported forms must be refused with an error.",
